@@ -359,8 +359,10 @@ class ExprMixin(object):
         if r is None or r[0] is None or r[1] is None:
             raise AnalysisError("E5.subscript", "cannot bound the index int(%r)" % (p,), node, module)
         lo, hi = r
-        if lo < 0:
+        if lo <= -1:
             raise AnalysisError("E5.subscript", "index int(...) may be negative (bounds %s..%s)" % (lo, hi), node, module)
+        if lo < 0:
+            lo = 0  # int() truncates towards zero: values in (-1, 0) index entry 0
         n = len(items)
         top = int(hi)  # int() truncates; p >= 0 so this is floor
         if top >= n:
